@@ -79,6 +79,10 @@ func docFeatures(es []ev.E) (features []string, dontCare bool) {
 		}
 	}
 	for _, e := range es {
+		if inArr && e.K != ev.Chunk && e.K != ev.Data {
+			checkArr(at, bits, data) // a chunked array ends where the next event of another kind begins
+			inArr = false
+		}
 		switch e.K {
 		case ev.Media, ev.MediaBegin:
 			if !mediaTypeRe.MatchString(e.S) {
@@ -99,6 +103,9 @@ func docFeatures(es []ev.E) (features []string, dontCare bool) {
 		case ev.Array:
 			checkArr(e.AT, e.U, e.Data)
 		case ev.ArrayBegin:
+			if inArr {
+				checkArr(at, bits, data) // the previous chunked array ends where the next one begins
+			}
 			at, inArr, bits, data = e.AT, true, 0, nil
 		case ev.Chunk:
 			if inArr {
@@ -114,6 +121,9 @@ func docFeatures(es []ev.E) (features []string, dontCare bool) {
 				inArr = false
 			}
 		}
+	}
+	if inArr {
+		checkArr(at, bits, data)
 	}
 	return
 }
